@@ -137,6 +137,8 @@ def execute(beh, R, variant=0, rnd=None, cache=None, probe=True, want_obj=False)
                 if a0 is None:          # the prefix ended in an exception: nothing new to observe
                     return list(st0)
                 atoms, held, steps, start = copy.deepcopy(a0), dict(h0), list(st0), n
+                if "__last_other__" in held:
+                    held["__last_other__"] = copy.deepcopy(held["__last_other__"])
                 break
     for n, st in enumerate(beh):
         if n < start:
@@ -157,6 +159,15 @@ def execute(beh, R, variant=0, rnd=None, cache=None, probe=True, want_obj=False)
                     rec["mode"] = st["mode"]
                     rec["map"] = [[v[0], v[1]] for v in _vals(st["map"])]
                     other = render(st["other"], R)
+                    if st.get("reuse") and held.get("__last_other__") is not None:
+                        # the fragment object of the previous extension is used again: moved, grown by this step's fragment
+                        # (public operations), and handed over once more; what is judged is the object as it is now
+                        other0 = held["__last_other__"]
+                        other0.translate(R.vec(st["reuse"])[0])
+                        other0.extend(other)
+                        other = other0
+                        rec["other"] = {k: v for k, v in project(other, R).items()}
+                    held["__last_other__"] = other
                     src = project(other, R)
                     sim = {int(j): key_index(atoms, R, key) for j, key in rec["map"]}
                     if R.name not in ("identity", "tests"):
@@ -250,7 +261,7 @@ def execute(beh, R, variant=0, rnd=None, cache=None, probe=True, want_obj=False)
                 return steps          # the result was scribbled on: not cached
         steps.append(rec)
         if cache is not None and variant == 0 and n < nsteps - 1 or (cache is not None and variant == 0 and op not in ("Replicate", "Subset", "Copy")):
-            cache[(R.name, sigs[n])] = (copy.deepcopy(atoms), dict(held), list(steps))
+            cache[(R.name, sigs[n])] = (copy.deepcopy(atoms), {k: (copy.deepcopy(x) if k == "__last_other__" else x) for k, x in held.items()}, list(steps))
     if want_obj:
         return steps, atoms
     return steps
@@ -458,7 +469,10 @@ def random_walks(nwalks, depth, maxatoms, sd):
                     tg = rnd.sample(keys, len(js)) if len(js) <= n else []
                     mp = [[j, t] for j, t in zip(js, tg)]
                     mode = "held" if f in held and rnd.random() < 0.5 else "auto"
-                    beh.append({"op": "Extend", "k": k, "frag": f, "mode": mode, "map": mp, "other": F})
+                    step = {"op": "Extend", "k": k, "frag": f, "mode": mode, "map": mp, "other": F}
+                    if any(b["op"] == "Extend" for b in beh) and n <= maxatoms // 3 and rnd.random() < 0.35:
+                        step.update(mode="auto", map=[], reuse=[0, 0, 30 + 11 * k])
+                    beh.append(step)
                 if flav == "n":
                     flav = inst[(f, 0)]["flav"]
             elif op == "Delete":
